@@ -138,7 +138,7 @@ def csv_roundtrip(df, index):
 # ---------------------------------------------------------------------------
 # faults (C12)
 
-FAULTS = ["drop_row", "dup_row", "unknown_item", "blank_value", "extra_row", "drop_column", "junk_columns", "conflicting_dup"]
+FAULTS = ["drop_row", "dup_row", "unknown_item", "blank_value", "extra_row", "drop_column", "junk_columns", "conflicting_dup", "respelled_dup"]
 TOLERATED_MISSING = {"drop_row", "blank_value"}
 TOLERATED_EXTRA = {"extra_row"}
 
@@ -172,6 +172,24 @@ def inject(df, spec, info, fault, rng, where):
         if rng.random() < 0.5:
             out = out.iloc[rng.permutation(len(out))].reset_index(drop=True)
         return out, {"row": i}
+    if fault == "respelled_dup":
+        # a second row for the same entry whose label is spelled as text / number: the same label after type conversion
+        typed = [c for c in dimcols if info["dimcol_of"][c][3] is int]
+        if not typed:
+            return None, "no int-typed dimension column"
+        i = position(rng, n, where)
+        c = typed[int(rng.integers(0, len(typed)))]
+        row = df.iloc[[i]].copy()
+        df[c] = df[c].astype(object)
+        row[c] = row[c].astype(object)
+        row.iloc[0, list(df.columns).index(c)] = str(row.iloc[0, list(df.columns).index(c)])
+        for vc in valcols:
+            row[vc] = row[vc] + 1.0
+        if rng.random() < 0.5 and n > 1:
+            # stands in for another row, so the row count still matches
+            j = (i + 1) % n
+            df = df.drop(index=j).reset_index(drop=True)
+        return pd.concat([df, row], ignore_index=True), {"row": i, "column": str(c)}
     if fault == "unknown_item":
         if not dimcols:
             return None, "no dimension column"
